@@ -9,6 +9,7 @@ import (
 
 	"github.com/awslabs/ar-go-tools/analysis/maypanic"
 	"github.com/awslabs/ar-go-tools/internal/zzverif/harness/load"
+	"github.com/awslabs/ar-go-tools/internal/zzverif/simrt"
 	"golang.org/x/tools/go/ssa"
 )
 
@@ -46,14 +47,16 @@ func runMayPanic(j *Job, out *Out, workDir string) {
 	defer os.Remove(tmp)
 	saved := os.Stdout
 	os.Stdout = f
-	func() {
+	// under the simulator so that the tape decides every map iteration order of the analysis
+	sim := simrt.Run(j.Params, func() {
 		defer func() {
 			if r := recover(); r != nil {
 				out.Panic = fmt.Sprintf("%v\n%s", r, debug.Stack())
 			}
 		}()
 		maypanic.MayPanicAnalyzer(prog, nil, true)
-	}()
+	})
+	out.Sim = &sim
 	os.Stdout = saved
 	f.Close()
 	b, _ := os.ReadFile(tmp)
